@@ -3,7 +3,7 @@
 //! token in the real output must equal the model's rendering.
 use crate::util::*;
 use serde_json::json;
-use stylua_lib::{LineEndings, LuaVersion};
+use stylua_lib::{LineEndings, LuaVersion, Range};
 
 pub fn run(tier: &str, seed: u64) -> Sink {
     let n = if tier == "thorough" { 200000 } else { 30000 };
@@ -59,8 +59,12 @@ pub fn run(tier: &str, seed: u64) -> Sink {
                 }
             }
         }
-        src.push_str("local zz = 1");
-        src.push_str(nl);
+        // one program in three ends here: the trivia is then the end-of-file token's (Model/Eof.lean)
+        let eof_mode = r.chance(1, 3);
+        if !eof_mode {
+            src.push_str("local zz = 1");
+            src.push_str(nl);
+        }
         // the tokenizer's own view of the leading trivia (so that the request describes what
         // the code receives): re-lex and compare the comment count as a sanity check
         let mut c = cfg();
@@ -94,6 +98,38 @@ pub fn run(tier: &str, seed: u64) -> Sink {
                     _ => break,
                 }
             }
+        }
+        if eof_mode {
+            let first_len = "local aa = 0".len() + nl.len();
+            // sometimes a range that ends with the first statement: the end of the file is then outside it
+            let ranged = r.chance(1, 4);
+            let range = if ranged { Some(Range::from_values(Some(0), Some("local aa = 0".len()))) } else { None };
+            if let Outcome::Ok(out) = fmt(&src, c, range, false) {
+                let eol = if eol_crlf { "\r\n" } else { "\n" };
+                let req = format!("eof {} {} {}", if eol_crlf { "crlf" } else { "lf" }, if ranged { 0 } else { 1 }, if items.is_empty() { "-".to_string() } else { items.join(";") });
+                if ranged {
+                    // untouched: the bytes after the first statement's line are the input's
+                    let tail_in = &src[first_len..];
+                    let obs = if out.ends_with(tail_in) && out.len() >= tail_in.len() && !out[..out.len() - tail_in.len()].is_empty() { "untouched".to_string() } else { format!("changed:{}", hex(out.as_bytes())) };
+                    if obs.starts_with("changed") && std::env::var("C03_DEBUG").is_ok() {
+                        eprintln!("DBG {:?} -> {:?} cfg={}", src, out, cfg_to_string(&c));
+                    }
+                    sink.q(req, obs);
+                } else {
+                    let start = format!("local aa = 0{}", eol);
+                    if out.starts_with(&start) {
+                        let tail = &out[start.len()..];
+                        sink.q(req, format!("x{}", if tail.is_empty() { "-".to_string() } else { hex(tail.as_bytes()) }));
+                        // C10, independently: a formatted file ends with exactly one line ending
+                        if out.ends_with(&format!("{}{}", eol, eol)) || !out.ends_with(eol) || out.ends_with(&format!(" {}", eol)) || out.ends_with(&format!("\t{}", eol)) {
+                            sink.v("C10", "eof:not-exactly-one-line-ending", json!({"input": src, "config": cfg_to_string(&c), "output": out}));
+                        }
+                    } else {
+                        sink.v("C03", "trivia:first-statement-changed", json!({"input": src, "config": cfg_to_string(&c), "output": out}));
+                    }
+                }
+            }
+            return sink;
         }
         if let Outcome::Ok(out) = fmt(&src, c, None, false) {
             let eol = if eol_crlf { "\r\n" } else { "\n" };
